@@ -52,6 +52,21 @@ class ChildTimeout(HarnessError):
     error; a check whose property includes termination may turn it into a verdict (on_timeout)."""
 
 
+def _plain(o):
+    """Results cross process boundaries pickled: an object of the code under test inside a violation detail
+    must not be rebuilt (by code that may be broken) in the parent; it travels as its repr."""
+    if o is None or isinstance(o, (bool, int, float, str, bytes)):
+        return o
+    if type(o) is dict:
+        return {(k if isinstance(k, (str, int, float, bool, type(None))) else repr(k)): _plain(v) for k, v in o.items()}
+    if type(o) in (list, tuple, set, frozenset):
+        return type(o)(_plain(x) for x in o)
+    try:
+        return repr(o)
+    except Exception:
+        return '<unprintable %s>' % type(o).__name__
+
+
 def _write_all(fd, data):
     view = memoryview(data)
     while view:
@@ -69,7 +84,7 @@ def run_forked(fn, arg, timeout_s=60.0):
         try:
             os.close(r)
             try:
-                res = fn(arg)
+                res = _plain(fn(arg))
                 data = pickle.dumps(('ok', res))
             except BaseException:
                 data = pickle.dumps(('err', traceback.format_exc()))
@@ -199,10 +214,28 @@ def isolated(check, case, timeout_s=None):
     return res
 
 
+PRISTINE = [False]      # set by main() once the sweep is over: every later execution starts from a forked, unused child
+
+
+def _with_prelude(check, case):
+    """A violation that needs what earlier runs left behind in the interpreter (a process-wide memo, an interned
+    object): the earlier cases are part of the replay and are executed first, in the same child."""
+    for p in case['prelude']:
+        try:
+            check.execute(p)
+        except Exception:
+            pass
+    return check.execute({k: v for k, v in case.items() if k != 'prelude'})
+
+
 def _isolated(check, case, timeout_s=None):
     t = timeout_s or getattr(check, 'run_timeout_s', 60.0)
     if case.get('hang_probe'):
         t = getattr(check, 'hang_timeout_s', t)
+    if case.get('prelude') is not None:
+        return run_forked(lambda c: _with_prelude(check, c), case, t * 4)
+    if PRISTINE[0] and check.isolation != 'fork':
+        return run_forked(check.execute, case, t)
     if check.isolation == 'fork' or os.environ.get('VERIF_FORCE_FORK'):
         if hasattr(check, 'zygote_init') and check.wants_zygote(case):
             z = _ZYGOTE.get(os.getpid())
@@ -254,7 +287,7 @@ class Agg(object):
         if keep_digest:
             self.digests[i] = res.get('digest')
         if res.get('viol') and len(self.viols) < 200:
-            self.viols.append((i, case, res['viol']))
+            self.viols.append((i, case, _plain(res['viol'])))
         if len(self.samples) < 2 and nt:
             self.samples.append({'run': i, 'case': check.describe(case),
                                  'outcome': res.get('outcome', 'ok' if not res.get('viol') else 'violation')})
@@ -393,7 +426,7 @@ def shrink(check, case, clause, budget_s=30.0, log=None):
     while progress and time.monotonic() < deadline:
         progress = False
         try:
-            for cand in check.candidates(cur):
+            for cand in _candidates(check, cur):
                 if time.monotonic() >= deadline:
                     break
                 if fails(cand):
@@ -408,6 +441,23 @@ def shrink(check, case, clause, budget_s=30.0, log=None):
     if log is not None:
         log['shrink_attempts'] = tried
     return cur
+
+
+def _candidates(check, cur):
+    pre = cur.get('prelude')
+    if pre is None:
+        for c in check.candidates(cur):
+            yield c
+        return
+    for sub in ddmin_list(pre, 1):
+        yield dict(cur, prelude=sub)
+    bare = {k: v for k, v in cur.items() if k != 'prelude'}
+    for c in check.candidates(bare):
+        yield dict(c, prelude=pre)
+    if len(pre) <= 3:
+        for j, pc in enumerate(pre):
+            for c in check.candidates(pc):
+                yield dict(cur, prelude=pre[:j] + [c] + pre[j + 1:])
 
 
 def ddmin_list(items, min_len=0):
@@ -567,6 +617,7 @@ def main(check, argv):
     sys.stdout.flush()
     agg = sweep(check, tier, args.seed, args.workers, budget, max_runs,
                 keep_digests=bool(args.digests), only_class=args.only_class, first=args.first)
+    PRISTINE[0] = True
     extra = {}
     if hasattr(check, 'post_sweep'):
         extra = check.post_sweep(agg) or {}
@@ -584,43 +635,77 @@ def main(check, argv):
         # listed finding cannot hide an unlisted one behind the same clause
         witnesses = by_clause[clause][:4]
         for (i, case, v) in witnesses:
+            wclause = clause
             log = {}
+            if check.isolation != 'fork' and not os.environ.get('VERIF_FORCE_FORK'):
+                # the sweep executes an in-process check's runs one after another in one worker interpreter; a
+                # violation may need what the worker's earlier runs left behind in hszinc's process-wide state
+                try:
+                    r0 = isolated(check, case)
+                    if not (r0.get('viol') and r0['viol'].get('clause') == wclause):
+                        pre = []
+                        for j in range(i % args.workers, i, args.workers):
+                            pc = check.generate(rng.derive(check.pid, args.seed, j), j, tier)
+                            if args.only_class and pc.get('class') != args.only_class:
+                                continue
+                            pre.append(pc)
+                        c2 = dict(case, prelude=pre)
+                        r2 = isolated(check, c2)
+                        if r2.get('viol') and r2['viol'].get('clause') == wclause:
+                            case = c2
+                            log['history'] = ('the case alone passes in an unused interpreter: the violation needs state that '
+                                              'earlier runs of the same worker left behind in the process; the %d earlier cases '
+                                              'are recorded as `prelude` and minimised with it' % len(pre))
+                except HarnessError as e:
+                    log['history'] = 'harness error: %s' % e
+            if hasattr(check, 'localise'):
+                # the same history observed more densely: the violation is then reported at the operation that causes
+                # it, not where a sparse observation cadence happened to notice (what a known finding is matched on)
+                try:
+                    for c2 in check.localise(case):
+                        r2 = isolated(check, c2)
+                        if r2.get('viol'):
+                            log['localised'] = 'first seen as clause=%s; re-run with dense observation' % wclause
+                            case, v, wclause = c2, r2['viol'], r2['viol']['clause']
+                            break
+                except HarnessError as e:
+                    log['localised'] = 'harness error: %s' % e
             if hasattr(check, 'prepare_shrink'):
                 # e.g. turn a strategy+seed schedule into its explicit decision list
                 try:
                     c2 = check.prepare_shrink(case, v)
                     r2 = isolated(check, c2)
-                    if r2.get('viol') and r2['viol'].get('clause') == clause:
+                    if r2.get('viol') and r2['viol'].get('clause') == wclause:
                         case = c2
                     else:
                         log['prepare_shrink'] = 'explicit form did not reproduce; shrinking the seeded form'
                 except HarnessError as e:
                     log['prepare_shrink'] = 'harness error: %s' % e
-            small = shrink(check, case, clause, budget_s=sb, log=log)
+            small = shrink(check, case, wclause, budget_s=sb, log=log)
             try:
                 res = isolated(check, small)
                 v2 = res.get('viol') or v
             except HarnessError:
                 small, v2 = case, v
-            path = write_replay(check, clause, args.seed, i, small, v2,
+            path = write_replay(check, wclause, args.seed, i, small, v2,
                                 {'original_ops': len(case.get('ops', [])), 'shrink': log})
             ok, out = replay_in_fresh_interpreter(check, path)
             if not ok:
                 agg.errors.append('replay of %s did not reproduce in a fresh interpreter:\n%s' % (path, out))
                 continue
-            kf = findings.match(check.pid, clause, small, v2)
+            kf = findings.match(check.pid, wclause, small, v2)
             if kf is not None:
                 line = 'KNOWN-FINDING: property=%s %s' % (check.pid, kf['text'])
                 if line not in known_lines:
                     known_lines.append(line)
                 continue
-            key = (clause, _case_digest(small))
+            key = (wclause, _case_digest(small))
             if key in reported:
                 continue
             reported.append(key)
             unlisted += 1
             print('VIOLATION property=%s replay=%s' % (check.pid, path))
-            print('  clause=%s run=%d detail=%s' % (clause, i, json.dumps(v2.get('detail'), default=repr)[:600]))
+            print('  clause=%s run=%d detail=%s' % (wclause, i, json.dumps(v2.get('detail'), default=repr)[:600]))
     for line in known_lines:
         print(line)
 
